@@ -165,6 +165,41 @@ func (p Prop[C]) Known(t *testing.T) {
 			fmt.Printf("KNOWN-FINDING-GONE: property=%s %s (stored case passes now)\n", p.ID, kf.What)
 		}
 	}
+	p.regress(t)
+}
+
+// regress replays the regression corpus regress/<ID>/*.json: shrunk cases that once exposed a defect
+// (repaired by a fix: commit) or a seeded change. They pass on the unchanged tree; a failure is judged
+// like a failure of a generated case (open known finding -> counted, anything else -> violation).
+func (p Prop[C]) regress(t *testing.T) {
+	st := GetStats(p.ID)
+	dir := VerifRoot() + "/regress/" + p.ID
+	ents, err := os.ReadDir(dir)
+	if err != nil {
+		return
+	}
+	n := 0
+	for _, e := range ents {
+		if e.IsDir() || !strings.HasSuffix(e.Name(), ".json") {
+			continue
+		}
+		var c C
+		if _, err := LoadReplay(dir+"/"+e.Name(), &c); err != nil {
+			fmt.Printf("HARNESS-ERROR cannot load regression case %s: %v\n", e.Name(), err)
+			os.Exit(2)
+		}
+		fmt.Printf("KNOWN-REPLAY-START regress/%s/%s\n", p.ID, e.Name())
+		done := journal(p.ID, c)
+		nt, labels, f := p.run(c)
+		done()
+		st.Record(c, nt, append(labels, "regression-corpus")...)
+		n++
+		if f != nil && !st.IsKnown(f) {
+			path := st.WriteReplay(c, f)
+			t.Errorf("VIOLATION-CANDIDATE property=%s sig=%s replay=%s\nregression case regress/%s/%s fails\n%s", p.ID, f.Sig, path, p.ID, e.Name(), f.Detail)
+		}
+	}
+	fmt.Printf("REGRESSION-CORPUS property=%s cases=%d\n", p.ID, n)
 }
 
 // Main is the TestMain body shared by all property packages.
